@@ -8,3 +8,114 @@ def model_check(ctx):
             ctx.mc('crossloop', 'MC_CrossLoop', cfg + '.cfg', expect_violation=expect, timeout=300)
         else:
             ctx.mc('crossloop', 'MC_CrossLoop', cfg + '.cfg', timeout=600)
+
+
+# ---------------------------------------------------------------------------------------------
+# implementation conformance (code -> spec): recorded executions against CrossLoop.tla
+import json as _json
+import os as _os
+import re as _re
+import shutil as _shutil
+from concurrent.futures import ThreadPoolExecutor as _TPE
+
+_KEEP = ('CallStart', 'RunnerEnter', 'RunnerExit', 'AwEval', 'CallEnd', 'LITReturned', 'StopCalled', 'StopReturned')
+
+
+def _prep(sc, r):
+    if sc.get('target') not in ('idle', 'lit', 'closed'):
+        return None
+    for cs in sc['callers']:
+        if cs.get('to', 'T') != 'T' or cs.get('fn', 'ensure_aw') != 'ensure_aw' or cs['aw'].get('kind', 'coro') != 'coro':
+            return None
+    ev = []
+    for e in r['events']:
+        k = e['e']
+        if k in ('Config', 'Tick', 'End'):
+            continue
+        if k not in _KEEP or 'st' not in e:
+            return None
+        if k in ('RunnerEnter', 'RunnerExit') and e.get('loop') != 'T':
+            continue
+        d = {'e': k, 'st': e['st']}
+        if 'c' in e:
+            d['c'] = 'C%d' % e['c']
+        if k == 'CallEnd':
+            d['kind'] = e['kind']
+        ev.append(d)
+    return {'events': ev, 'callers': ['C%d' % cs['c'] for cs in sc['callers']], 'mode': sc['target']}
+
+
+def _one(p):
+    from harness import tlc
+    mod = ('---- MODULE MC_CrossLoopConform ----\nEXTENDS CrossLoopConform\nCCallers == {%s}\n====\n'
+           % ', '.join('"%s"' % c for c in p['callers']))
+    cfg = ('INIT CInit\nNEXT CNext\nCONSTANTS\n Callers <- CCallers\n Mode = "%s"\n ReCheck = TRUE\n D7Stutter = FALSE\n'
+           'CONSTRAINT Reached\nCONSTRAINT NotYetAccepted\nCHECK_DEADLOCK FALSE\n' % p['mode'])
+    work = tlc.scratch('clconf-')
+    try:
+        tf = _os.path.join(work, 'trace.json')
+        with open(tf, 'w') as f:
+            _json.dump(p['events'], f)
+        out, dt, rc = tlc.run_tlc('crossloop', 'MC_CrossLoopConform', 'MC_CrossLoopConform.cfg', workers=1,
+                                  timeout=int(_os.environ.get('CONF_TIMEOUT', '90')), env={'TRACE_FILE': tf},
+                                  cfg_text=cfg, extra_files={'MC_CrossLoopConform.tla': mod},
+                                  jvm=['-Dtlc2.tool.queue.IStateQueue=StateDeque'], heap='1g')
+    finally:
+        _shutil.rmtree(work, ignore_errors=True)
+    r = tlc.parse_mc(out)
+    best = 1
+    for m in _re.finditer(r'<< ?"REACHED", 1, (\d+), (\d+) ?>>', _re.sub(r'\s+', ' ', out)):
+        best = max(best, int(m.group(1)))
+    err = r['error']
+    return best, len(p['events']) + 1, err, r['distinct'], r['generated'], (out[out.find('Error:'):][:900] if err and err != 'timeout' else '')
+
+
+def conformance(ctx, executed, limit=30):
+    todo = []
+    seen = set()
+    for sc, r, v in executed:
+        if r.get('status') != 'ok' or any(x is not None for x in v.values()):
+            continue
+        p = _prep(sc, r)
+        if p is None or not (2 <= len(p['events']) <= 60):
+            continue
+        key = _json.dumps(p, sort_keys=True)
+        if key in seen:
+            continue
+        seen.add(key)
+        todo.append(p)
+    # prefer variety: round-robin over (mode, number of callers), longest first within a class
+    classes = {}
+    for p in todo:
+        classes.setdefault((p['mode'], len(p['callers'])), []).append(p)
+    for v in classes.values():
+        v.sort(key=lambda p: -len(p['events']))
+    picked = []
+    while len(picked) < limit and any(classes.values()):
+        for k in sorted(classes):
+            if classes[k] and len(picked) < limit:
+                picked.append(classes[k].pop(0))
+    acc = und = 0
+    drift = []
+    with _TPE(8) as ex:
+        for p, (best, n, err, ds, gen, tail) in zip(picked, ex.map(_one, picked)):
+            ctx.cov['states'] += ds
+            ctx.cov['transitions'] += gen
+            if best >= n:
+                acc += 1
+            elif err == 'timeout':
+                und += 1
+            elif err:
+                ctx.notes.append('crossloop conformance: TLC error: %s' % (tail,))
+                und += 1
+            else:
+                drift.append({'matched_prefix': best - 1, 'of': n - 1, 'mode': p['mode'],
+                              'first_unexplained': p['events'][best - 1], 'events': p['events'][:best]})
+    ctx.cov['conformance'] = {'traces_checked': len(picked), 'accepted': acc, 'drift': len(drift), 'undecided': und,
+                              'drift_samples': drift[:3],
+                              'what': 'recorded executions of caller threads on the real ensure_aw / loop_in_thread validated against '
+                                      'CrossLoop.tla: same observable points (call start/end, runner enter/exit, awaitable evaluated, '
+                                      'loop_in_thread / stop returned), internal steps silent, projected state (T running, lock table '
+                                      'entry, loop lock held, creation lock held) compared at every observable point'}
+    ctx.cov['conformance_divergences'] = len(drift)
+    return len(picked), acc, drift
